@@ -38,10 +38,28 @@ def failing_nested_pair(rng):
             {"inputs": [["Root", [good]]], "cmps": cmps, "job": job2, "tree": None}]
 
 
+def converters_then_base(rng):
+    """a generation with post-init converters for attrs / dataclasses, then one for the plain generator (also with the
+    option on) over data with string pseudo-types"""
+    data = [{"n": "5", "f": "0.5", "b": "true", "s": "plain", "sub": {"k": "12"}}]
+    cmps = [["percent", 7, 10], ["number", 10]]
+    j1 = common.gen_job(rng, fw=rng.choice(["attrs", "dataclasses"]), layout="flat")
+    j2 = common.gen_job(rng, fw="base", layout=rng.choice(["flat", "nested"]))
+    for j in (j1, j2):
+        j.update({"postInit": True, "preamble": None})
+    return [{"inputs": [["Root", data]], "cmps": cmps, "job": j1, "tree": None},
+            {"inputs": [["Root", data]], "cmps": cmps, "job": j2, "tree": None}]
+
+
 def gen_history(rng):
     n = rng.randint(2, 4)
     hist = []
-    if rng.random() < 0.12:
+    r0 = rng.random()
+    if r0 > 0.9:
+        hist.extend(converters_then_base(rng))
+        if rng.random() < 0.5:
+            return hist
+    if r0 < 0.12:
         hist.extend(failing_nested_pair(rng))
         if rng.random() < 0.5:
             return hist
